@@ -31,7 +31,8 @@ def selftest():
 
 
 def _arc(lat1, lon1, lat2, lon2):
-    return math.hypot(lat2 - lat1, math.cos(math.radians(lat1)) * (lon2 - lon1))
+    dlon = (lon2 - lon1 + 180.0) % 360.0 - 180.0      # 181 deg and -179 deg are the same meridian
+    return math.hypot(lat2 - lat1, math.cos(math.radians(lat1)) * dlon)
 
 
 def check_geo_roundtrip(case):
